@@ -127,10 +127,15 @@ Init == /\ \E t \in StartTensors : acc = t /\ start = t
 Step(op, arg, res, outcome, extra) ==
   hist' = Append(hist, [op |-> op, arg |-> arg, outcome |-> outcome, result |-> res, extra |-> extra])
 
+\* behaviours that start from one of the large tensors take a single binary step (their point is the size, and two
+\* steps on a thousand elements each would only multiply the output)
+IsLarge(t) == t.rank > 0 /\ DimsR(t.rank, t.data) \in LargeShapes
+DepthOf(t) == IF IsLarge(t) THEN 1 ELSE Depth
+
 \* (operations the library does not define on nested lists -- sub, mul, hadamard, mean -- are outside the property's
 \*  quantifier and are not generated for them)
 Binary(op, y) ==
-  /\ ~final /\ Len(hist) < Depth /\ UNCHANGED <<start, final>>
+  /\ ~final /\ Len(hist) < DepthOf(start) /\ UNCHANGED <<start, final>>
   /\ acc.rank <= 0 => op = "add"
   /\ IF Defined(op, acc, y)
        THEN /\ acc' = Apply2(op, acc, y)
@@ -140,7 +145,7 @@ Binary(op, y) ==
 
 \* hadamard(other, scalar): a * b * scalar.
 Hadamard(y, k) ==
-  /\ ~final /\ Len(hist) < Depth /\ UNCHANGED <<start, final>>
+  /\ ~final /\ Len(hist) < DepthOf(start) /\ UNCHANGED <<start, final>>
   /\ acc.rank > 0
   /\ IF Defined("hadamard", acc, y)
        THEN /\ acc' = [rank |-> acc.rank, data |-> MapR(LAMBDA a, b : a * b * k, acc.rank, acc.data, y.data)]
